@@ -39,7 +39,7 @@ LEAN_MODULES = {
     "C10": ["TFV.Properties.Gray"],
     "C11": ["TFV.Properties.Select"],
     "C12": ["TFV.Properties.Net"],
-    "C13": ["TFV.Properties.Net"],
+    "C13": ["TFV.Properties.Net", "TFV.Properties.Gray"],
     "C14": ["TFV.Properties.SelfConf"],
     "C15": ["TFV.Properties.Adapt"],
     "C16": ["TFV.Properties.Split"],
